@@ -108,7 +108,8 @@ def _generate_slice(ns, node):
         else:
             sr = f"[{node.start}]"
     r, s = _generate_expression(ns, node.value)
-    return r + sr, s
+    # A bit/part-select is always unsigned (a 1-bit Signal printed without select keeps its signedness).
+    return r + sr, (s if sr == "" else False)
 
 # Print Cat ----------------------------------------------------------------------------------------
 
